@@ -134,5 +134,5 @@ def run(ctx):
     ctx.log("shapes run %d, executed %d, verdict blocked %d / ok-unchanged %d, controls mutated %d, open mutated %d, violations %s" % (
         n, executed, tot.get("verdict_blocked", 0), tot.get("verdict_ok_unchanged", 0), tot.get("control_mutated", 0), tot.get("open_mutated", 0), ctx.cov["violations_by_key"]))
     ctx.assumptions += ["the victim's Dump() renders every persisted field; raw comparison covers every committed oid: entry of the victim's package id (the #realm bookkeeping entry excluded); in the four _flush contexts the victim itself rewrites all its objects with their own values after the attack (so that an in-memory-only foreign write would be saved) and Dump() alone decides",
-                        "shapes are the grammar of spec/MCInterrealm.tla (35 contexts x 50 access paths x 73 write kinds, type-applicable combinations), not all Gno programs",
+                        "shapes are the grammar of spec/MCInterrealm.tla (34 contexts x 50 access paths x 73 write kinds, type-applicable combinations), not all Gno programs",
                         "documented-open classes (top-level /p/ function or value-receiver /p/ method invoked by victim-authorised code; library method on a victim-owned receiver; closures minted by the victim) are negative controls, not verdicts"]
